@@ -52,7 +52,7 @@ theorem flattenRet_noRet : ∀ (v : Val), ∀ x ∈ flattenRet v, ∀ vs, x ≠ 
   | .html _, x, hx, ws | .list _ _, x, hx, ws | .map _ _ _, x, hx, ws | .rv _, x, hx, ws | .gofn _, x, hx, ws
   | .userfn _ _, x, hx, ws | .iter _ _ _, x, hx, ws | .cont _, x, hx, ws | .brk _, x, hx, ws
   | .ilist _, x, hx, ws | .closure _ _, x, hx, ws | .hctx _ _, x, hx, ws | .giter _, x, hx, ws
-  | .opaque _ _, x, hx, ws => by
+  | .opaque _ _, x, hx, ws | .struct _ _, x, hx, ws | .ptr _ _, x, hx, ws => by
     simp [flattenRet] at hx; subst hx; simp
 theorem flattenRets_noRet : ∀ (vs : List Val), ∀ x ∈ flattenRets vs, ∀ ws, x ≠ .ret ws
   | [], x, hx, ws => by simp [flattenRets] at hx
